@@ -304,6 +304,16 @@ def run_inventory(R, rid, root_name, desc, restrict=None):
         entries[e["key"]].append(e)
     used = Counter()
     per_guard_sites = {}
+    cg = P.callgraph()
+    callers_of = defaultdict(set)
+    for a_, bs_ in cg.items():
+        fa = P.fns[a_]
+        while fa.kind == "Closure" and fa.parent_key in P.fns:
+            fa = P.fns[fa.parent_key]
+        for b_ in bs_:
+            if P.fns[b_].kind != "Closure":
+                callers_of[b_].add(fa.key)
+    unique_caller = {k_: next(iter(v_)) for k_, v_ in callers_of.items() if len(v_) == 1 and P.fns[k_].vis != "Public"}
     all_sites = []
     for k in sorted(reach):
         f = P.fns[k]
@@ -323,7 +333,21 @@ def run_inventory(R, rid, root_name, desc, restrict=None):
                 R.ok(rid, key, "mechanical: " + how, s.loc(), nontrivial=False)
                 continue
             done = False
-            for e in entries.get(key, []):
+            cand = list(entries.get(key, []))
+            if not cand:
+                # the site may have moved into a private helper with a single caller (extract-function refactoring):
+                # rows of the (transitively unique) caller apply, their guards are still re-proved at the site
+                ok_ = s.owner
+                for _ in range(2):
+                    cs_ = unique_caller.get(ok_.key)
+                    if cs_ is None:
+                        break
+                    ok_ = P.fns[cs_]
+                    k2 = "%s|%s|%s" % (ok_.spath, s.kind, s.detail)
+                    if entries.get(k2):
+                        cand = list(entries[k2])
+                        break
+            for e in cand:
                 if "requires" in e:
                     # mechanically re-proved per site: any number of sites may use the row, but a guard that licenses one
                     # use (`per_guard`) is consumed by the first site it dominates
